@@ -430,12 +430,7 @@ func valueLevelDurationP(r *vk.Run) {
 					continue
 				}
 				if eXY != eYX {
-					cl := "same-sign"
-					if dx == 0 || dy == 0 {
-						cl = "with-zero"
-					} else if (dx < 0) != (dy < 0) {
-						cl = "opposite-signs"
-					}
+					cl := "pair"
 					r.Violation("C16/"+name+"/symmetric/"+cl, fmt.Sprintf("DurationValueWithinP(%v): (%dns,%dns)=%v but reversed=%v", p, dx, dy, eXY, eYX), replay)
 				}
 				// tolerance, only where all readings agree
@@ -513,7 +508,7 @@ func valueLevelOtherKind(r *vk.Run) {
 					mx := vk.GenMessage(rng, dynamicOrConcrete(fd), vk.GenOpts{Density: 50, MaxDepth: 1, MaxList: 2})
 					my := clone(mx)
 					if rep%2 == 1 {
-						vk.Mutate(rng, my, vk.DefaultGen)
+						safeMutate(rng, my, vk.DefaultGen)
 					}
 					vx, vy = pref.ValueOfMessage(mx.ProtoReflect()), pref.ValueOfMessage(my.ProtoReflect())
 				} else {
